@@ -70,6 +70,15 @@ BadPairs(lv, NB, NO, G) ==
 Triples(lv, N, S(_)) ==
   {c \in {Case(lv, <<x, y, z>>) : x \in All(N, S), y \in All(N, S), z \in All(N, S)} : Distinct(c)}
 
+\* the documented-invalid combination next to every other option, in every position: validation must not depend on
+\* what else is in the list
+RejectTriples(lv) ==
+  LET A == All({"apache_warning"}, Settings2)
+      B == All({"apache_adaptor"}, Settings2)
+      Z == All(Names, Settings2)
+  IN {c \in UNION {{Case(lv, <<a, b, z>>), Case(lv, <<z, a, b>>), Case(lv, <<a, z, b>>), Case(lv, <<b, a, z>>)} :
+                       a \in A, b \in B, z \in Z} : Distinct(c)}
+
 \* options whose documented effect depends on another option
 Focus == {"enable_nested_struct", "template", "gen_deep_equal"}
 Neighbours == {"gen_setter", "naming_style", "template", "enable_nested_struct"}
@@ -88,6 +97,7 @@ UQuick(x) == Empty \cup Singles(GarbageQuick)
           \cup Pairs("cli", Focus, Names, Settings2) \cup Pairs("cli", Names, Focus, Settings2)
           \cup BadPairs("backend", Names, Neighbours, {"garbage"})
           \cup BadPairs("cli", Names, {"enable_nested_struct"}, {"garbage"})
+          \cup RejectTriples("backend") \cup RejectTriples("cli")
           \cup Random
 
 UThoroughBackend(x) == Empty \cup Singles(GarbageMore)
